@@ -137,11 +137,24 @@ class Ob:
     def fn(self, crate, spec):
         return self.prog.find(crate, spec)
 
-    def explore(self, f, args, st=None):
+    def explore(self, f, args, st=None, split_result=True):
         paths = self.eng.explore(f, args, st)
         cuts = [p for p in paths if p.kind == 'cut']
         if cuts:
             self.r.broken(f'{f.short}: {len(cuts)} path(s) hit the loop bound ({cuts[0].msg}) -- unwinding assertion')
+        if split_result:
+            # a function that returns the Result of its last call unchanged (`f(x)` in tail position instead of `f(x)?; Ok(())`) yields ONE path with a symbolic
+            # Result: it is case-split into its Ok and Err halves here, so obligations see the same two paths whichever of the two styles the source uses
+            from .engine import Path
+            from . import models as _M
+            out = []
+            for p in paths:
+                if p.kind == 'return' and isinstance(p.ret, Opaque) and _M.enum_kind(p.ret) == 'Result':
+                    for s2, n, payload in _M.split_enum(self.eng, p.st, p.ret, 'Result'):
+                        out.append(Path(s2, 'return', Agg('enum', 'Result', f'Result::{n}', [payload] if payload is not None else []), None))
+                else:
+                    out.append(p)
+            paths = out
         return paths
 
     def require(self, cond, key, what, path=None, detail=None):
